@@ -60,7 +60,9 @@ inductive Fault where
   | nameMismatch
   /-- `ignore_on_error`: the item was dropped silently during commit; no object, `true` returned -/
   | ignored
-  /-- `ActivateItems` throws after the object was committed, 253 / catch 287-295 -/
+  /-- `ActivateItems` throws after the object was committed (an object's `Start()` throws: F-C17i, reproduced
+      on the real code with a `FileLogger` whose log file cannot be opened); the catch block at the end of
+      `CreateObject` reports failure, the deferred removal deletes the file, nothing is unregistered -/
   | activateThrows
 deriving DecidableEq, Repr
 
@@ -104,8 +106,12 @@ def createObject (st : St) (k : Key) (path : Str) (parents : List Key) (fault : 
       else if fault = .nameMismatch then (dropFile { st2 with items := st2.items.filter (· ≠ k) }, .fail)
       else if fault = .ignored then (dropFile { st2 with items := st2.items.filter (· ≠ k) }, .ok)
       else
-        -- commit: the object is instantiated and registered
-        let st3 := { st2 with objs := { key := k, api := api, active := false, file := path } :: st2.objs }
+        -- commit: the object (and what apply rules generated for it) is instantiated and registered;
+        -- `ActivateItems` first marks every new object active (`PreActivate`, configitem.cpp:664-679), then
+        -- starts them one by one: if a `Start()` throws they all stay behind, registered and marked active
+        let st3 := { st2 with objs := { key := k, api := api, active := true, file := path } ::
+                                (generated.map (fun g => { key := g, api := false, active := true, file := [] }) ++ st2.objs),
+                              items := k :: (generated ++ st1.items) }
         if fault = .activateThrows then (dropFile st3, .fail)
         else
           -- activate; the object is found; the deferred removal is cancelled (277-279)
